@@ -2,32 +2,33 @@
 // property: C14
 // harness-file: session.rs
 // harness: c14_unchoked_num_counts_regular_slots_3
+// config: 
 // failed-check: slots in use = regularly unchoked peers @ ../vh/session.rs:128:5 in function session::verif_kani::unchoked_num_spec
-// native-result: /var/tmp/rdest-verif.C14.7826/vh/session.rs:128:5: slots in use = regularly unchoked peers
+// native-result: /var/tmp/rdest-verif.C14.373/cfg-default/vh/session.rs:128:5: slots in use = regularly unchoked peers
 // rerun: cd /verif && ./check C14 --replay /verif/evidence/replay/C14-c14_unchoked_num_counts_regular_slots_3.rs
 /// Test generated for harness `session::verif_kani::c14_unchoked_num_counts_regular_slots_3` 
 ///
 /// Check for `assertion`: ""slots in use = regularly unchoked peers""
 
 #[test]
-fn kani_concrete_playback_c14_unchoked_num_counts_regular_slots_3_13432967744173442740() {
+fn kani_concrete_playback_c14_unchoked_num_counts_regular_slots_3_3670665720807492647() {
     let concrete_vals: Vec<Vec<u8>> = vec![
         // 1
         vec![1],
-        // 0
-        vec![0],
-        // 0
-        vec![0],
+        // 1
+        vec![1],
+        // 1
+        vec![1],
+        // 1
+        vec![1],
         // 1
         vec![1],
         // 0
         vec![0],
         // 0
         vec![0],
-        // 0
-        vec![0],
-        // 0
-        vec![0],
+        // 1
+        vec![1],
         // 0
         vec![0],
     ];
